@@ -119,8 +119,14 @@ class Program(object):
                     statement.determine_pcr_relative_sizes(self.statements, index)
 
         address = 0
+        first_code = None
         for index, statement in enumerate(self.statements):
+            previous_address = address
             address = statement.set_address(address)
+            if first_code is not None and address < previous_address:
+                raise TranslationError("ORG moves back over code that was already assembled", statement)
+            if first_code is None and statement.code_pkg.size > 0:
+                first_code = statement
             address += statement.code_pkg.size
 
         for index, statement in enumerate(self.statements):
@@ -134,7 +140,8 @@ class Program(object):
         # Find the origin and name of the project
         for statement in self.statements:
             if statement.instruction.is_origin:
-                self.origin = statement.code_pkg.address
+                # the image starts where the first byte is assembled (a later ORG leaves a gap inside the image)
+                self.origin = statement.code_pkg.address if first_code is None else first_code.code_pkg.address
             if statement.instruction.is_name:
                 self.name = statement.operand.operand_string
             if statement.instruction.mnemonic == "END":
@@ -158,8 +165,14 @@ class Program(object):
         :return: returns the assembled program bytes
         """
         machine_codes = []
+        next_address = None
         for statement in self.statements:
             if not statement.is_empty and not statement.is_comment_only:
+                if statement.code_pkg.size > 0 and not statement.code_pkg.address.is_none():
+                    # a later ORG leaves a gap: fill it so that every byte stays at its listing address
+                    if next_address is not None and statement.code_pkg.address.int > next_address:
+                        machine_codes.extend([0x00] * (statement.code_pkg.address.int - next_address))
+                    next_address = statement.code_pkg.address.int + statement.code_pkg.size
                 for index in range(0, statement.code_pkg.op_code.hex_len(), 2):
                     op_code = statement.code_pkg.op_code.hex()
                     hex_byte = "{}{}".format(op_code[index], op_code[index+1])
